@@ -27,7 +27,7 @@ ASSUMPTIONS = ['the documentation tables of the tree under test are the specific
                'propagate_fft refusing tilt-carrying wavefronts (NotImplementedError) is C09\'s rule, not a table entry']
 EXHAUSTIVE = True
 PLAN = {'quick': {'gen': 8}, 'thorough': {'gen': 16, 'tests': 1}}
-REQUIRED_BUCKETS = ['form:mismatch', 'copy-step', 'form:scalar', 'form:disjoint', 'start:none', 'start:pupil', 'start:image', 'len:1', 'len:2', 'len:3', 'random-long',
+REQUIRED_BUCKETS = ['typed-tilt-class', 'start:none+focal', 'form:mismatch', 'copy-step', 'form:scalar', 'form:disjoint', 'start:none', 'start:pupil', 'start:image', 'len:1', 'len:2', 'len:3', 'random-long',
                     'cell:allowed', 'cell:refused', 'propagate:allowed', 'propagate:refused']
 REQUIRED_ANCHORS = ['anchor:_can_mul_ptype', 'anchor:_mul_result_ptype', 'anchor:_propagate_ptype', 'anchor:Image.multiply',
                     'anchor:PType.__eq__']
@@ -110,6 +110,15 @@ def make_plane(lentil, name, w, form='array'):
         a = np.zeros((4, 4)); a[:, 2:] = 1
     if name.startswith('ptype:'):
         return lentil.Plane(amplitude=a, pixelscale=ps, ptype=getattr(lentil, name.split(':')[1]))
+    if '@' in name:
+        # a tilt-class plane given an explicit plane type, as a type object ('@') or by name ('@@')
+        base, t = name.replace('@@', '@').split('@')
+        pt = t if '@@' in name else getattr(lentil, t)
+        if base == 'Tilt':
+            return lentil.Tilt(x=1e-6, y=-1e-6, ptype=pt)
+        with warnings.catch_warnings():
+            warnings.simplefilter('ignore')
+            return getattr(lentil, base)(trace=[1.0, 0.0], dispersion=[1e-4, 5e-7], ptype=pt)
     if name == 'Plane':
         return lentil.Plane(amplitude=a, pixelscale=ps)
     if name == 'Pupil':
@@ -134,6 +143,12 @@ def make_plane(lentil, name, w, form='array'):
 def start_wavefront(lentil, start):
     if start == 'none':
         return lentil.Wavefront(WL)
+    if start == 'none:focal':
+        # an untyped wavefront may carry sampling, a finite focal length and data: it is still not a pupil
+        w = lentil.Wavefront(WL, pixelscale=DX, focal_length=Z)
+        w.data = [lentil.field.Field(np.ones((4, 4), complex), pixelscale=DX)]
+        w.shape = (4, 4)
+        return w
     w = lentil.Wavefront(WL, pixelscale=DX, focal_length=Z, ptype=getattr(lentil, start))
     # give it real data so that later steps act on an array
     w.data = [lentil.field.Field(np.ones((4, 4), complex), pixelscale=DX)]
@@ -225,6 +240,28 @@ def workload(ctx, lentil):
                     continue
                 ctx.case({'start': start, 'prog': list(prog), 'form': 'mismatch'}, ['form:mismatch'])
                 run_program(ctx, lentil, start, prog, traces, forms=['mismatch'] * L)
+    # tilt-class planes constructed with an explicit plane type (object and string form) take that type's row of the table
+    typed = [f'{b}{sep}{t}' for b in ('Tilt', 'DispersiveTilt', 'Grism') for sep in ('@', '@@')
+             for t in ('none', 'pupil', 'image', 'tilt', 'transform')]
+    k = 0
+    for start in ('none', 'pupil', 'image', 'none:focal'):
+        for sym in typed:
+            for tail in ([], ['Pupil'], ['propagate_dft'], ['Image']):
+                k += 1
+                if k % ctx.nshards != ctx.shard:
+                    continue
+                prog = [sym] + tail
+                ctx.case({'start': start, 'prog': prog}, ['typed-tilt-class'])
+                run_program(ctx, lentil, start, prog, traces)
+    # untyped wavefronts that carry sampling, data and a finite focal length
+    k = 0
+    for L in range(1, 4):
+        for prog in itertools.product(['Plane', 'Tilt', 'ptype:transform', 'ptype:none', 'propagate_dft', 'propagate_fft', 'Pupil'], repeat=L):
+            k += 1
+            if k % ctx.nshards != ctx.shard:
+                continue
+            ctx.case({'start': 'none:focal', 'prog': list(prog)}, ['start:none+focal'])
+            run_program(ctx, lentil, 'none:focal', prog, traces)
     # copies of the wavefront (deepcopy / pickle round trip) anywhere in a program
     k = 0
     for start in ('none', 'pupil', 'image'):
@@ -287,6 +324,9 @@ def finish(ctx, lentil):
     cls.setdefault('Grism', cls['DispersiveTilt'])        # deprecated alias of DispersiveTilt
     for g in GENERIC:
         cls[g] = g.split(':')[1]
+    for b in ('Tilt', 'DispersiveTilt', 'Grism'):
+        for t in ('none', 'pupil', 'image', 'tilt', 'transform'):
+            cls[f'{b}@{t}'] = cls[f'{b}@@{t}'] = t
     ctx.notes['automaton'] = {'table': table, 'classes': cls, 'propagation': prop}
     # class -> ptype as documented
     for name in PLANES:
